@@ -4,6 +4,12 @@ import json, os
 V = os.path.dirname(os.path.dirname(os.path.abspath(__file__)))
 
 CLAIMED = {
+ "C18": {
+  "text": "The suggestion rule (byte-length budget, unrestricted Damerau-Levenshtein distance over scalar values, earliest minimal candidate) is a TLA+ function. TLC proves on every pair of strings over a 3-symbol alphabet up to length 4 (quick) / 5 (thorough) that the Lowrance-Wagner DP used by the spec equals the shortest-path distance of the four-operation edit graph (Zero/Lipschitz/Descent invariants) and checks the structural facts of the property; all enumerated (received, candidates) inputs, a wide alphabet with 2- and 4-byte symbols, and seeded random multi-candidate lists around every byte threshold are executed on the real did_you_mean and each returned string is validated verbatim by TLC.",
+  "note": "Bounded: exhaustive pairs up to length 4/5 over 3 symbols; random strings up to 30 bytes, lists up to ~10 candidates. Trusted: TLC, Json module, harness s.chars() encoding.",
+  "technique": "TLA+ function definition with TLC-checked inductive characterisation of the distance; exhaustive spec->impl replay; impl->spec trace validation",
+  "design_ref": "DESIGN.md section 5 (C18)",
+ },
  "C17": {
   "text": "TLC enumerates every list of <= 5 (quick) / 6 (thorough) value kinds with repetitions and checks that the TLA+ transcription of sort+dedup+description_rec equals the declarative set-based phrase DescSpec and is invariant under adjacent swaps; every enumerated list, all 256 subsets in random permutations with repetitions and random longer lists are executed on the real value_kinds_description_json and each (input, output) line is validated by TLC against DescSpec.",
   "note": "Bounded: lists up to length 5/6 exhaustively, random lists up to 12/14. Trusted: TLC string concatenation, the Json module.",
